@@ -518,6 +518,26 @@ CHECKS["C07"]["rule"] += (" The large geometries include steady-state streams: 2
 CHECKS["C09"]["rule"] += (" The text is handed over as the front part of a larger buffer in three of four calls (behind it: the text "
                           "again, its last byte repeated, zeros); sa/sainv operands of LCP are nil, exact, or slices of another length "
                           "cut from one buffer.")
+CHECKS["C09"]["quick"]["tests"].append({"test": "TestC09Mega", "checks": 6, "subchecks": 1})
+CHECKS["C09"]["thorough"]["tests"].append({"test": "TestC09Mega", "checks": 6, "subchecks": 1})
+CHECKS["C09"]["rule"] += (" Plus TestC09Mega: the same checks on texts of 2^20 + {0,1,2,3,4,17,63,64,65,323} bytes (uniform over 200 values "
+                          "with two runs of a larger byte).")
+CHECKS["C12"]["quick"]["tests"].append({"test": "TestC12Mega", "checks": 3, "subchecks": 1})
+CHECKS["C12"]["thorough"]["tests"].append({"test": "TestC12Mega", "checks": 4, "subchecks": 1})
+CHECKS["C12"]["rule"] += (" Plus TestC12Mega: GSAP (MinMatchLen 8) on 4 MiB + {0..323} bytes without repeats except a marker of 20 of "
+                          "the largest bytes at two places: the second marker is found, every sequence is the longest match.")
+CHECKS["C14"]["quick"]["tests"].append({"test": "TestC14BigSkip", "checks": 2, "subchecks": 5})
+CHECKS["C14"]["thorough"]["tests"].append({"test": "TestC14BigSkip", "checks": 3, "subchecks": 5, "once": True})
+CHECKS["C14"]["rule"] += (" Plus TestC14BigSkip: Parse(nil) over blocks of 16 MiB + 1, 17 and 33 MiB (40 MiB buffers) for the hash parsers.")
+CHECKS["C15"]["quick"]["tests"].append({"test": "TestC15BigSA", "checks": 2, "subchecks": 1})
+CHECKS["C15"]["thorough"]["tests"].append({"test": "TestC15BigSA", "checks": 3, "subchecks": 1, "once": True})
+CHECKS["C15"]["rule"] += (" Plus TestC15BigSA: GSAP with 3 MiB buffered (written at once, three blocks parsed, Shrink by hand, reads at the "
+                          "retained and the discarded offsets, more data, more blocks, Shrink) through the stream model.")
+CHECKS["C16"]["quick"]["tests"].append({"test": "TestC16BigSA", "checks": 1, "subchecks": 2})
+CHECKS["C16"]["thorough"]["tests"].append({"test": "TestC16BigSA", "checks": 2, "subchecks": 2, "once": True})
+CHECKS["C16"]["rule"] += (" Plus TestC16BigSA: GSAP with 3 MiB and OSAP with a buffer above the 8 MiB default (8 MiB + 64 KiB) filled "
+                          "completely and parsed to the end. The acceptance test puts every accepted parser to a short use (write, "
+                          "parse with both flags, shrink).")
 CHECKS["C01"]["quick"]["tests"].append({"test": "TestC01Far", "checks": 12, "subchecks": 1})
 CHECKS["C01"]["thorough"]["tests"].append({"test": "TestC01Far", "checks": 20, "subchecks": 1})
 CHECKS["C01"]["rule"] += (" Plus TestC01Far: OSAP over 2.1-2.6 MiB of bytes uniform over 256 values with 20-60 planted copies (more than "
